@@ -165,9 +165,9 @@ def parse_tla_set(s):
     return [(int(x), '') for x in re.findall(r'\d+', s)]
 
 
-def judge(trace, prop, module='TraceProps', extra_env=None, nproc=NPROC):
+def judge(trace, prop, module='TraceProps', extra_env=None, nproc=NPROC, max_cases=4000):
     """Trace validation at predicate speed: returns (judged, [(global_index, cls)], states, tlc_wall)."""
-    parts = split_trace(trace)
+    parts = split_trace(trace, max_cases=max_cases)
     t0 = time.time()
 
     def one(part):
